@@ -211,10 +211,14 @@ fn exercise_masked(input: &[u8], d: usize, t: &mut Tally, mask: u32) {
 						let _ = crate::run::take_panic();
 						after = crate::alloc::live();
 						if after.0 > b2.0 {
-							// the known class is the handful of blocks (at most 8: the token / string under construction) owned by raw pointers in libyaml
+							// the known class is the handful of blocks (at most 7; 6 is the largest number observed on the pinned tree over the whole thorough tier: the tokens / strings under construction) owned by raw pointers in libyaml
 							// frames that an unwind skips; the parser's own buffers (tens of KiB) must still be
 							// released by Parser::drop
-							let class = if panicked && after.1 - b2.1 <= 8 { "leak-when-a-panic-unwinds-through-libyaml" } else if panicked { "large-leak-on-the-panic-path" } else { "leak" };
+							if panicked {
+								t.max("panic-path-leak:blocks", (after.1 - b2.1) as u64);
+								t.max("panic-path-leak:bytes", (after.0 - b2.0) as u64);
+							}
+							let class = if panicked && after.1 - b2.1 <= 7 { "leak-when-a-panic-unwinds-through-libyaml" } else if panicked { "large-leak-on-the-panic-path" } else { "leak" };
 							t.bad(class, json!({"kind": "memory", "input_hex": if input.len() <= 4096 { hex(input) } else { String::new() }, "input_len": input.len(), "input_text": show(&input[..input.len().min(120)]), "op": op, "at": at, "excess": excess, "chunk": chunk}),
 								format!("YAML input {}: over-reporting reader (read #{at} claims buf.len()+{excess}, chunk {chunk}) into {}: {} bytes in {} block(s) stay allocated after each pass{}", show(&input[..input.len().min(80)]), ["the parser", "the chunker", "the re-encoder", "translate_reader(yaml)", "translate_reader(detect)"][op as usize], after.0 - b2.0, after.1 - b2.1, if panicked { " (the pass ends in a caught panic raised inside libyaml's read callback)" } else { "" }));
 						}
@@ -269,6 +273,9 @@ pub fn worker(tier: &str, _part: usize, nparts: usize, start: usize, progress: &
 			if let Some(e) = t.bad.get_mut(&class) {
 				e.0 += n - 1;
 			}
+		}
+		for (k, v) in std::mem::take(&mut scratch.maxes) {
+			t.max(&k, v);
 		}
 		let counters = std::mem::take(&mut scratch.counters);
 		drop(scratch);
